@@ -228,7 +228,7 @@ def query_clauses(ctx) -> None:
             name = c.func.attr
             seen.add(name)
             gs = cfg.cguards(c, fn.node)
-            ctx.check(sorted(gs) == sorted(QUERY_CLAUSES[name]), 'C06.query-clauses', fn, f'.{name}() is applied exactly when its own argument is present (guards {gs}, expected {QUERY_CLAUSES[name]})', c, key=f'clause:{name}')
+            ctx.check(sorted(gs) == cfg.cg(*QUERY_CLAUSES[name]), 'C06.query-clauses', fn, f'.{name}() is applied exactly when its own argument is present (guards {gs}, expected {QUERY_CLAUSES[name]})', c, key=f'clause:{name}')
     ctx.check(seen == set(QUERY_CLAUSES), 'C06.query-clauses', fn, f'all clauses are generated ({sorted(seen)})', fn.node, key='clauses:all')
     sel = [c for c in core.calls_in(fn.node) if core.src(c.func) == 'sql.select']
     ctx.check(len(sel) == 1 and core.src(sel[0].args[0]) == '*features' and '.select_from(source)' in core.src(fn.node), 'C06.query-clauses', fn, 'SELECT <features> FROM <source>', fn.node, key='clauses:select')
